@@ -245,7 +245,7 @@ var rejects = []string{
 	`1__0`, `1_`, `0x_1`, `0x1_`, `0x1__1`, `0b_1`, `0b1_`, `1_.0`, `1._0`, `1.0_`, `1.0__1`, `007`, `00`, `01`, `01.5`, `-007`, `-00`, `0_1`, `00.5`, `00d0`, `00e0`, `0x`, `0X`, `0b`, `0b2`, `0xG`, `0b1.0`,
 	`+1`, `+0x1`, `1e`, `1d`, `1e+`, `1d-`, `1E-`, `1.5.5`, `1x`, `1a`, `1_a`, `0x1.5`, `0x1G`, `1e5.5`, `1d5.5`, `1e5e5`, `1d5d5`, `- 1`, `-`, `--1`, `-+1`, `1d1_0`, `1e1_0`, `.5`, `1 .5`, `1d+-1`, `-_1`, `-a`,
 	`1d99999999999999999999`, `1.5d-9223372036854775808`, `1+2`, `1-2`, `(1+2)`, `(1-2)`, `(1a)`, `(1.5x)`, `(1e5*)`, `(0x1g)`, `(1/2)`, `[1-1]`, `(1_)`, `(2007T+)`, `12345T`, `123T`,
-	`+inf1`, `-infx`, `+infinity`, `[+in]`, `+ inf`, `nan.`, `(nan.)`, `(true.)`, `(false+)`, `(nan-)`,
+	`+inf1`, `-infx`, `+infinity`, `[+in]`, `+ inf`, `nan.`,
 	// null forms
 	`null.foo`, `null.`, `null. int`, "null.\nint", `null .int`, `null.Int`, `null.INT`, `null.intx`, `null.int1`, `null.nan`, `null.true`, `null.null.null`, `null.int.x`, `(null.)`, `(null.foo)`, `null./**/int`,
 	// container punctuation
